@@ -15,7 +15,6 @@ import (
 	"encoding/binary"
 	"fmt"
 
-	"github.com/tetratelabs/wazero"
 	rs "github.com/tetratelabs/wazero/verif/checks/c05/refsem"
 	"github.com/tetratelabs/wazero/verif/wb"
 )
@@ -258,6 +257,7 @@ func buildChainModule(p *rs.Op, cs []*consumer) []byte {
 }
 
 type chainMismatch struct {
+	class  string // non-empty: the module failed to compile / instantiate (errClass)
 	p      *chainProducer
 	c      *consumer // nil: raw call
 	it     int
@@ -315,14 +315,14 @@ func (w *worker) runChains(p *chainProducer, all []*consumer, st *stats, rep fun
 		pseudo[i] = c.pseudoOp()
 	}
 	for e := 0; e < 2; e++ {
-		cmod, err := w.rt[e].CompileModule(ctx, bin)
+		cmod, err := w.compile(e, bin)
 		if err != nil {
-			rep(chainMismatch{p: p, engine: e, got: "compile error: " + firstLine(err.Error()), want: "valid module"})
+			rep(chainMismatch{p: p, engine: e, class: errClass("compile", err), got: errText("compile", err), want: "valid module"})
 			continue
 		}
-		mod, err := w.rt[e].InstantiateModule(ctx, cmod, wazero.NewModuleConfig().WithName(""))
+		mod, err := w.instantiate(e, cmod)
 		if err != nil {
-			rep(chainMismatch{p: p, engine: e, got: "instantiate error: " + firstLine(err.Error()), want: "instance"})
+			rep(chainMismatch{p: p, engine: e, class: errClass("instantiate", err), got: errText("instantiate", err), want: "instance"})
 			cmod.Close(ctx)
 			continue
 		}
@@ -347,7 +347,7 @@ func (w *worker) runChains(p *chainProducer, all []*consumer, st *stats, rep fun
 				binary.LittleEndian.PutUint64(mem[pairOut0+off:], 0xa5a5a5a5a5a5a5a5)
 				binary.LittleEndian.PutUint64(mem[pairOut0+off+8:], 0x5a5a5a5a5a5a5a5a)
 			}
-			if _, err := fn.Call(ctx, uint64(c1-c0)); err != nil {
+			if _, err := call(fn, uint64(c1-c0)); err != nil {
 				// locate the failing slot
 				for s, sl := range slots[c0:c1] {
 					// move slot s to position 0 and run it alone
@@ -356,7 +356,7 @@ func (w *worker) runChains(p *chainProducer, all []*consumer, st *stats, rep fun
 						copy(mem[int(pairIn(k)):int(pairIn(k))+16], mem[int(pairIn(k))+off:int(pairIn(k))+off+16])
 					}
 					binary.LittleEndian.PutUint32(mem[pairIdx:], uint32(sl.f))
-					if _, err1 := fn.Call(ctx, 1); err1 != nil {
+					if _, err1 := call(fn, 1); err1 != nil {
 						rep(chainMismatch{p: p, c: cs[sl.f], it: sl.it, z: sl.z, engine: e, got: "error: " + firstLine(err1.Error()), want: wantString(pseudo[sl.f], sl.want)})
 						break
 					}
@@ -382,7 +382,7 @@ func (w *worker) runChains(p *chainProducer, all []*consumer, st *stats, rep fun
 					args = append(args, t[k].Hi)
 				}
 			}
-			res, err := raw.Call(ctx, args...)
+			res, err := call(raw, args...)
 			cc.rawCalls++
 			if err != nil || len(res) != 1 {
 				rep(chainMismatch{p: p, it: it, engine: e, got: fmt.Sprintf("error: %v", err), want: wantString(p.op, p.exp[it])})
